@@ -389,6 +389,55 @@ def rule_h_whole_data_once(ctx, fns, enum_fns):
     return n
 
 
+def rule_i_per_bin_factor_is_the_efficiency(ctx, fns):
+    """`undo multiplies each bin by its efficiency, apply divides by it, get_bin_efficiency reports it`: a class that overrides
+    apply/undo(RelatedViewgrams&) with its own loop over the bins and also provides the efficiency of a bin must update the element
+    with exactly that efficiency - `x op= E` or `x op= max(eps, E)` with E = get_bin_efficiency(bin) of the SAME bin - and with nothing
+    else multiplied in."""
+    n = 0
+    seen = set()
+    # the property names its kinds: from projection data, from an attenuation image, from detector components, chained, trivial (and the
+    # base class they share).  Scanner-specific classes are outside it; BinNormalisationSPECT in particular does NOT satisfy this clause
+    # (DESIGN.md section 1, side observation with triage/replay_F23.cxx) and is deliberately not judged here.
+    OUT_OF_PROPERTY = ("stir::BinNormalisationSPECT", "stir::BinNormalisationFromECAT7", "stir::BinNormalisationFromECAT8", "stir::BinNormalisationFromGEHDF5")
+    have_eff = ({f.cls for f in fns if f.short in ("get_bin_efficiency", "get_uncalibrated_bin_efficiency") and f.body is not None} | {"stir::BinNormalisation"}) - set(OUT_OF_PROPERTY)
+    ctx.stats["per_bin_factor_classes_not_judged"] = list(OUT_OF_PROPERTY)
+    for f in fns:
+        if f.short not in ("apply", "undo") or f.body is None or f.cls not in have_eff or not f.params or "RelatedViewgrams" not in f.params[0]["t"] or (f.file, f.line) in seen:
+            continue
+        ups = []  # (node, op, lhs, rhs)
+        for m in f.walk():
+            if not any(a.k == "ForStmt" for a in m.ancestors()) or len(m.c) < 2:
+                continue
+            l_ = m.c[-2].strip()
+            if "float" not in (l_.type or "") or l_.k not in ("CXXOperatorCallExpr", "ArraySubscriptExpr"):
+                continue
+            if m.k in ("CompoundAssignOperator", "CXXOperatorCallExpr") and m.op in ("*=", "/="):
+                ups.append((m, m.op, l_, m.c[-1].strip()))
+            elif m.k == "BinaryOperator" and m.op == "=":
+                r_ = m.c[-1].strip()
+                # x = x * E  /  x = x / E
+                if r_.k == "BinaryOperator" and r_.op in ("*", "/") and key(r_.c[0].strip()) == key(l_):
+                    ups.append((m, r_.op + "=", l_, r_.c[1].strip()))
+                elif r_.k == "BinaryOperator" and r_.op == "*" and key(r_.c[1].strip()) == key(l_):
+                    ups.append((m, "*=", l_, r_.c[0].strip()))
+        if not ups:
+            continue
+        seen.add((f.file, f.line))
+        defs = LocalDefs(f)
+        sub = {d: defs.single_def(d) for d in defs.decl}
+        for i, (m, op_, lhs_n, rhs) in enumerate(ups):
+            want_op = "/=" if f.short == "apply" else "*="
+            k = key(rhs, False, sub)
+            mm = re.fullmatch(r"(?:std::max\([^,]+,)?this\.get_bin_efficiency\((v\d+)\)\)?", k)
+            lhs = key(lhs_n, False, sub)
+            same_bin = mm is not None and ("%s.axial_pos_num()" % mm.group(1)) in lhs and ("%s.tangential_pos_num()" % mm.group(1)) in lhs
+            ok = op_ == want_op and mm is not None and same_bin
+            ctx.ob("C13.i-per-bin-factor-is-the-efficiency", f.qn, "update@%d" % i, ok, m.where(), "element %s get_bin_efficiency(bin) of its own bin" % want_op if ok else "the element is updated with `%s %s`, not with the efficiency get_bin_efficiency(bin) reports for its bin: apply/undo and the reported efficiency disagree" % (op_, key(rhs, True)[:140]))
+            n += 1
+    return n
+
+
 def run(ctx):
     ctx.explanation = (
         "Decides, for every BinNormalisation class compiled in this build: (a) apply and undo are duals - the argument is modified the "
@@ -412,6 +461,8 @@ def run(ctx):
     rule_e_trivial(ctx, units)
     rule_g_setup_rebuilds_derived_data(ctx, fns)
     ctx.require_count("C13.g-setup-rebuilds-derived-data", 2)
+    rule_i_per_bin_factor_is_the_efficiency(ctx, fns)
+    ctx.require_count("C13.i-per-bin-factor-is-the-efficiency", 2)
     er = Request("src/recon_buildblock/find_basic_vs_nums_in_subset.cxx", fn=["stir::detail::find_basic_vs_nums_in_subset"])
     eu = ctx.ex.get(er)
     if eu is not None:
